@@ -24,7 +24,7 @@ def run(sc, cases, typ="limit", nk=1, flag=True):
 
     def val(f):
         code, out = run_tlc("ReplicaTrace.tla", cfg, timeout=1800, workers=1, heap="3g", env={"VERIF_TRACE": f[1]}, light=True)
-        if not tlc_ok(code, out):
+        if not tlc_ok(code, out) or not printed(out, "LINES"):
             return None
         return printed(out, "MISMATCH")[0], printed(out, "DIVERGED")[0], printed(out, "CLASSES")[0], printed(out, "LINES")[0]
     res = pmap(val, files)
